@@ -832,9 +832,59 @@ def snapshot_hybrid(hl):
             "monthly": [[float(getattr(hl, f)[i]) for f in MONTHLY_FIELDS] for i in range(1, min(n, 12 * max(1, len(hl.years)) + 1))]}
 
 
+def peaky_profile(seed: int, hours: int = 8760, n_years: int = 1, amp: float = 30000.0):
+    """Two-sided profile (W), non-zero in every hour, different from load year to load year, with one
+    distinct rejection peak hour and one distinct extraction peak hour per month; December's two peaks are
+    both on 31 December (the last day of the list for a one-year profile), February's on its last day."""
+    rng = random.Random(seed)
+    out = []
+    for y in range(n_years):
+        f = amp * (1.0 + 0.45 * y) * rng.uniform(0.8, 1.2)
+        ph = rng.uniform(-20, 20)
+        yr = [f * (0.25 + 0.6 * max(0.0, math.sin(math.pi * ((h % 24) - 6) / 12.0))) * math.cos(2 * math.pi * ((h // 24) - 15 - ph) / (hours / 24.0))
+              * (0.9 + 0.2 * (((h + 17 * y) * 7919) % 101) / 101.0) for h in range(hours)]
+        yr = [x if abs(x) > 5.0 else 5.0 + (h % 7) for h, x in enumerate(yr)]
+        days = [31, 29 if hours == 8784 else 28, 31, 30, 31, 30, 31, 31, 30, 31, 30, 31]
+        t0 = 0
+        for m, nd in enumerate(days):
+            d_c = nd - 1 if m in (1, 11) else rng.randrange(nd)
+            d_h = nd - 1 if m in (1, 11) else rng.randrange(nd)
+            h_c = rng.randrange(24)
+            h_h = (h_c + 1 + rng.randrange(22)) % 24
+            yr[t0 + 24 * d_c + h_c] = -f * rng.uniform(1.3, 1.6)
+            yr[t0 + 24 * d_h + h_h] = f * rng.uniform(1.3, 1.6)
+            t0 += 24 * nd
+        out += yr
+    return out
+
+
+def end_plateau_profile(seed: int, hours: int, month: int):
+    """A smooth profile with a plateau over the last two days of calendar month `month` (1..12) in one
+    direction: a peak on the last day of that month whose pulse runs past the month end."""
+    rng = random.Random(seed)
+    raw = [0.2 * x for x in wave_profile(seed, hours)]
+    days = [31, 29 if hours == 8784 else 28, 31, 30, 31, 30, 31, 31, 30, 31, 30, 31]
+    end = 24 * sum(days[:month])
+    lvl = rng.choice([-1.0, 1.0]) * rng.uniform(20000.0, 60000.0)
+    for h in range(end - 48, end):
+        raw[h] = lvl * rng.uniform(0.985, 0.999)
+    raw[end - rng.randint(2, 10)] = lvl
+    return raw
+
+
+def profile_of(a):
+    kind = a.get("profile", "wave")
+    ny = len(a["years"])
+    if kind == "peaky":
+        return peaky_profile(a["seed"], a["hours"], ny, a.get("amp", 30000.0))
+    if kind == "end_plateau":
+        return end_plateau_profile(a["seed"], a["hours"], a["plateau_month"])
+    return wave_profile(a["seed"], a["hours"], a.get("second_year_factor"))
+
+
 def run_ghe_history(args):
     """Build a real GHE (through GHE.__init__), snapshot its hybrid load, then simulate(HYBRID) twice and
-    size once, snapshotting after every call.  args = dict(phys, seed, start, end, years, hours)."""
+    size once, snapshotting after every call.  args = dict(phys, seed, start, end, years, hours, profile…)."""
     from ghedesigner.enums import TimestepType
     from ghedesigner.gfunction import calc_g_func_for_multiple_lengths
     from ghedesigner.ground_heat_exchangers import GHE
@@ -845,7 +895,7 @@ def run_ghe_history(args):
     phys = a["phys"]
     fluid, pipe, grout, soil, bh, bhe_type = ghelib.media(phys, "SINGLEUTUBE")
     coords = [(0.0, 0.0), (5.0, 0.0), (0.0, 5.0), (5.0, 5.0)]
-    loads = wave_profile(a["seed"], a["hours"])
+    loads = profile_of(a)
     sim = SimulationParameters(a["start"], a["end"], 35.0, 5.0, 135.0, 60.0)
     m_bh = phys["flow"] / 1000.0 * fluid.rho
     out = {"steps": []}
@@ -872,33 +922,144 @@ def run_ghe_history(args):
     return out
 
 
+def ghe_history_jobs(rng, n, phys, flavour="wave"):
+    """GHE call-history jobs.  flavour: "wave" (every hour non-zero), "peaky" (distinct monthly peaks,
+    December peaks on 31 December), "end_plateau" (last-month peak running past the end of the horizon)."""
+    fixed = [(4, 27, [2019]), (1, 24, [2020]), (1, 12, [2019]), (2, 13, [2019]), (7, 30, [2021]), (12, 36, [2019]), (1, 13, [2020]), (4, 15, [2020])]
+    if flavour == "end_plateau":
+        fixed = [(1, 18, [2019]), (1, 12, [2019]), (1, 24, [2020]), (4, 18, [2019]), (1, 6, [2021]), (2, 14, [2020]), (1, 30, [2019]), (7, 19, [2021])]
+    jobs = []
+    for k in range(n):
+        if k < len(fixed):
+            start, end, years = fixed[k]
+        else:
+            start, years = rng.choice([1, 2, 4, 7, 12]), [rng.choice([2019, 2020, 2021])]
+            end = start + rng.choice([0, 5, 11, 12, 17, 23, 26])
+        j = {"phys": phys, "seed": rng.randrange(1 << 30), "start": start, "end": end, "years": years,
+             "hours": 8784 if years[0] % 4 == 0 else 8760, "profile": flavour}
+        if flavour == "end_plateau":
+            j["plateau_month"] = (end - 1) % 12 + 1
+        jobs.append(j)
+    return jobs
+
+
 def run_design_search(args):
-    """A real design search through the public design classes with explicit load_years; returns the
-    hybrid load of the GHE the search constructor built and of the GHE the search RETURNS.
-    args = dict(phys, seed, years, hours, months, design, second_year_factor)."""
-    from ghedesigner.design import DesignNearSquare, DesignRectangle
+    """A real design search through the public design classes with explicit load_years / flow type;
+    returns the hybrid load of the GHE the search RETURNS and, for comparison, the monthly durations of a
+    HybridLoad built from the public classes for the SAME exchanger (same per-borehole flow).
+    args = dict(phys, seed, years, hours, months, design, profile, flow, flow_type, …)."""
+    from ghedesigner.borehole import GHEBorehole
+    from ghedesigner.borehole_heat_exchangers import get_bhe_object
+    from ghedesigner import design as D
+    from ghedesigner import geometry as G
     from ghedesigner.enums import FlowConfigType, TimestepType
-    from ghedesigner.geometry import GeometricConstraintsNearSquare, GeometricConstraintsRectangle
+    from ghedesigner.ground_loads import HybridLoad
+    from ghedesigner.radial_numerical_borehole import RadialNumericalBH
     from ghedesigner.simulation import SimulationParameters
 
     a = args
     phys = a["phys"]
     fluid, pipe, grout, soil, bh, bhe_type = ghelib.media(phys, "SINGLEUTUBE")
-    loads = wave_profile(a["seed"], a["hours"], a.get("second_year_factor"))
+    loads = profile_of(a)
     sim = SimulationParameters(1, a["months"], 35.0, 5.0, 135.0, 60.0, continue_if_design_unmet=True)
+    ft = FlowConfigType.SYSTEM if a.get("flow_type") == "SYSTEM" else FlowConfigType.BOREHOLE
+    flow = a.get("flow", phys["flow"])
+    lot = a.get("lot", 20.0)
+    rect = [[0.0, 0.0], [lot, 0.0], [lot, 0.75 * lot], [0.0, 0.75 * lot]]
     out = {}
     try:
         with ghelib.quiet(), warnings.catch_warnings():
             warnings.simplefilter("ignore")
-            if a["design"] == "NEARSQUARE":
-                d = DesignNearSquare(phys["flow"], bh, bhe_type, fluid, pipe, grout, soil, sim, GeometricConstraintsNearSquare(5.0, 20.0),
-                                     list(loads), TimestepType.HYBRID, flow_type=FlowConfigType.BOREHOLE, load_years=list(a["years"]))
+            kw = dict(method=TimestepType.HYBRID, flow_type=ft, load_years=list(a["years"]))
+            common = (flow, bh, bhe_type, fluid, pipe, grout, soil, sim)
+            k = a["design"]
+            if k == "NEARSQUARE":
+                d = D.DesignNearSquare(*common, G.GeometricConstraintsNearSquare(5.0, lot), list(loads), **kw)
+            elif k == "RECTANGLE":
+                d = D.DesignRectangle(*common, G.GeometricConstraintsRectangle(lot, 0.75 * lot, 4.0, 8.0), list(loads), **kw)
+            elif k == "BIRECTANGLE":
+                d = D.DesignBiRectangle(*common, G.GeometricConstraintsBiRectangle(lot, lot, 4.0, 10.0, 12.0), list(loads), **kw)
+            elif k == "BIZONED":
+                d = D.DesignBiZoned(*common, G.GeometricConstraintsBiZoned(lot, lot, 4.0, 10.0, 12.0), list(loads), **kw)
+            elif k == "BIRECTANGLECONSTRAINED":
+                d = D.DesignBiRectangleConstrained(*common, G.GeometricConstraintsBiRectangleConstrained(4.0, 10.0, 12.0, rect, []), list(loads), **kw)
+            elif k == "ROWWISE":
+                d = D.DesignRowWise(*common, G.GeometricConstraintsRowWise(None, 8.0, 10.0, 2.0, -math.pi / 2, 0.0, 30.0, rect, []), list(loads), **kw)
             else:
-                d = DesignRectangle(phys["flow"], bh, bhe_type, fluid, pipe, grout, soil, sim, GeometricConstraintsRectangle(20.0, 15.0, 4.0, 8.0),
-                                    list(loads), TimestepType.HYBRID, flow_type=FlowConfigType.BOREHOLE, load_years=list(a["years"]))
+                raise ValueError(k)
             search = d.find_design()
-            out["n_boreholes"] = len(search.selected_coordinates)
-            out["returned"] = snapshot_hybrid(search.ghe.hybrid_load)
+            ghe = search.ghe
+            nbh = len(ghe.gFunction.bore_locations)
+            out["n_boreholes"] = nbh
+            out["returned"] = snapshot_hybrid(ghe.hybrid_load)
+            # the same exchanger from the public building blocks: same per-borehole flow, built at the
+            # search height (max_height), the current height is tried as well
+            fluid2, pipe2, grout2, soil2, bh2, _ = ghelib.media(phys, "SINGLEUTUBE")
+            m_bh = (flow / nbh if ft == FlowConfigType.SYSTEM else flow) / 1000.0 * fluid2.rho
+            refs = {}
+            for name, hgt in (("max_height", 135.0), ("returned_height", float(ghe.bhe.b.H))):
+                bhe = get_bhe_object(bhe_type, m_bh, fluid2, GHEBorehole(hgt, bh2.D, bh2.r_b, x=0.0, y=0.0), pipe2, grout2, soil2)
+                eq = bhe.to_single()
+                rn = RadialNumericalBH(eq)
+                rn.calc_sts_g_functions(eq)
+                ref = HybridLoad(list(loads), eq, rn, SimulationParameters(1, a["months"], 35.0, 5.0, 135.0, 60.0), years=list(a["years"]))
+                refs[name] = snapshot_hybrid(ref)
+            out["reference"] = refs
+            out["flow_per_borehole"] = flow / nbh if ft == FlowConfigType.SYSTEM else flow
+    except Exception as e:  # noqa: BLE001
+        out["raise"] = type(e).__name__ + ": " + str(e)[:300]
+    return out
+
+
+DESIGN_BASE = [
+    {"design": "NEARSQUARE", "years": [2018, 2019], "hours": 8760, "months": 24},
+    {"design": "BIRECTANGLE", "years": [2018, 2019], "hours": 8760, "months": 24, "lot": 30.0, "flow": 0.3},
+    {"design": "NEARSQUARE", "years": [2019], "hours": 8760, "months": 24, "flow": 0.3, "flow_type": "SYSTEM", "lot": 40.0},
+    {"design": "RECTANGLE", "years": [2020], "hours": 8784, "months": 24},
+    {"design": "BIZONED", "years": [2021, 2022], "hours": 8760, "months": 24, "lot": 30.0},
+    {"design": "BIRECTANGLECONSTRAINED", "years": [2020], "hours": 8784, "months": 13, "lot": 30.0},
+    {"design": "ROWWISE", "years": [2018, 2019], "hours": 8760, "months": 24, "lot": 24.0},
+    {"design": "NEARSQUARE", "years": [2020], "hours": 8784, "months": 13},
+    {"design": "BIRECTANGLE", "years": [2020], "hours": 8784, "months": 12, "lot": 30.0, "flow": 0.4, "flow_type": "SYSTEM"},
+]
+
+
+def design_search_jobs(rng, n, phys, profile="peaky"):
+    jobs = []
+    for k in range(n):
+        j = dict(DESIGN_BASE[k % len(DESIGN_BASE)])
+        j.update(phys=phys, seed=rng.randrange(1 << 30), profile=profile)
+        if profile == "wave" and len(j["years"]) > 1:
+            j["second_year_factor"] = rng.choice([0.5, 1.7])
+        jobs.append(j)
+    return jobs
+
+
+def run_manager_history(args):
+    """GHEManager call history: set_simulation_parameters once per entry of args["horizons"] (the last
+    one counts), then loads, geometry, set_design, find_design.  Returns the hybrid load of the found design."""
+    from ghedesigner.manager import GHEManager
+
+    a = args
+    phys = a["phys"]
+    out = {}
+    try:
+        with ghelib.quiet(), warnings.catch_warnings():
+            warnings.simplefilter("ignore")
+            m = GHEManager()
+            m.set_fluid(phys["fluid"][0], phys["fluid"][1])
+            m.set_grout(*phys["grout"])
+            m.set_soil(*phys["soil"])
+            h, d, dia = phys["borehole"]
+            ghelib.set_pipe(m, "SINGLEUTUBE", phys, dia)
+            m.set_borehole(h, d, dia)
+            for nm in a["horizons"]:
+                m.set_simulation_parameters(nm, 35.0, 5.0, 135.0, 60.0, None, True)
+            m.set_ground_loads_from_hourly_list(list(profile_of(a)))
+            m.set_geometry_constraints_near_square(b=5.0, length=10.0)
+            m.set_design(phys["flow"], "BOREHOLE")
+            m.find_design()
+            out["returned"] = snapshot_hybrid(m._search.ghe.hybrid_load)
     except Exception as e:  # noqa: BLE001
         out["raise"] = type(e).__name__ + ": " + str(e)[:300]
     return out
